@@ -142,6 +142,8 @@ thread_local! {
     static OPS: Cell<u64> = const { Cell::new(0) };
     /// content-addressed table of compressed points, owned by the running case
     static REG: RefCell<HashMap<[u8; 32], FP>> = RefCell::new(HashMap::new());
+    /// keys this thread has put into the process-wide fallback registry (removed from there by `reset_registry`)
+    static OWN_KEYS: RefCell<Vec<[u8; 32]>> = const { RefCell::new(Vec::new()) };
 }
 
 pub fn ops() -> u64 {
@@ -204,8 +206,31 @@ fn log_msm(pre: bool, r: &FP) {
     });
 }
 /// Forget every compressed point registered by this thread (call at the start of each case).
+/// Process-wide fallback of the compressed-point registry (sharded, reference counted): the registry proper is per thread, so
+/// that concurrently running cases do not see each other; but a library that hands part of a verification to threads of its
+/// own must still be able to decompress, on those threads, what the calling thread compressed.
+fn global_shard(k: &[u8; 32]) -> &'static std::sync::Mutex<HashMap<[u8; 32], (FP, u32)>> {
+    static SHARDS: std::sync::OnceLock<Vec<std::sync::Mutex<HashMap<[u8; 32], (FP, u32)>>>> = std::sync::OnceLock::new();
+    let v = SHARDS.get_or_init(|| (0..64).map(|_| std::sync::Mutex::new(HashMap::new())).collect());
+    &v[(k[0] % 64) as usize]
+}
 pub fn reset_registry() {
     REG.with(|r| r.borrow_mut().clear());
+    OWN_KEYS.with(|o| {
+        for k in o.borrow_mut().drain(..) {
+            let mut g = global_shard(&k).lock().unwrap_or_else(|e| e.into_inner());
+            let gone = match g.get_mut(&k) {
+                Some(e) => {
+                    e.1 = e.1.saturating_sub(1);
+                    e.1 == 0
+                },
+                None => false,
+            };
+            if gone {
+                g.remove(&k);
+            }
+        }
+    });
 }
 pub fn registry_len() -> usize {
     REG.with(|r| r.borrow().len())
@@ -311,9 +336,21 @@ impl Compressable for FP {
         let d = h.finalize();
         let mut b = [0u8; 32];
         b.copy_from_slice(&d[..32]);
-        REG.with(|r| {
-            r.borrow_mut().entry(b).or_insert_with(|| self.clone());
+        let fresh = REG.with(|r| {
+            let mut r = r.borrow_mut();
+            if r.contains_key(&b) {
+                false
+            } else {
+                r.insert(b, self.clone());
+                true
+            }
         });
+        if fresh {
+            let mut g = global_shard(&b).lock().unwrap_or_else(|e| e.into_inner());
+            g.entry(b).or_insert_with(|| (self.clone(), 0)).1 += 1;
+            drop(g);
+            OWN_KEYS.with(|o| o.borrow_mut().push(b));
+        }
         CFP(b)
     }
 }
@@ -324,7 +361,11 @@ impl Decompressable for CFP {
         if self.0 == [0u8; 32] {
             return Some(FP::default());
         }
-        REG.with(|r| r.borrow().get(&self.0).cloned())
+        if let Some(p) = REG.with(|r| r.borrow().get(&self.0).cloned()) {
+            return Some(p);
+        }
+        // (only reached on a thread that did not compress the point itself)
+        global_shard(&self.0).lock().unwrap_or_else(|e| e.into_inner()).get(&self.0).map(|e| e.0.clone())
     }
 }
 impl FixedBytesRepr for CFP {
